@@ -69,7 +69,8 @@ CHECKS = {
                 " Added: optional getters report 'not set' only for an absent key (R-GETTER); const backend methods never write (R-GETPURE); lookup tables in backend objects are coherent, no member is filled lazily, optGroup never answers 'absent' from memory (R-NOCACHE); index access iterates the creation-order index increasingly (R-ORDER); file property lists carry no denied setting (R-FAPL)."
                 ' Round 6: the time stamp text codec is time-zone/locale independent and parser and formatter agree (R-TIMECODEC).'
                 ' Round 7: front-end setters/getters and backend stores are verbatim (R-SETVERB, R-GETVERB, R-STOREVERB); all constructors of a backend class bind a container member to the same group name (R-CTORPAIR); H5Object releases its id unconditionally (R-HIDREL).'
-                " Round 8: no run-time written function-static state (R-NOSTATIC); the string transfer functions do not touch the caller's strings (R-STRBUF, R-STRIO verbatim).",
+                " Round 8: no run-time written function-static state (R-NOSTATIC); the string transfer functions do not touch the caller's strings (R-STRBUF, R-STRIO verbatim)."
+                ' Round 9: backend getters return what they read (R-GETRAW).',
     },
     'C03': {
         'technique': 'static analysis: dominance-based validate-before-create rule over clang AST/CFG facts (custom checker)',
@@ -112,7 +113,8 @@ CHECKS = {
                 ' Added: raw HDF5 ids reach their owner before anything can throw (R-HIDOWN); file property list deny list (R-FAPL); const backend methods never write (R-GETPURE); existence queries check() their result (R-ERR-EXISTS); header verdict judged by outcome only.'
                 ' Round 6: the front-end existence test follows symbolic links like the open call does (status vs symlink_status modelled).'
                 ' Round 7: open flags and compression reach the backend for every mode (R-HDR-CTOR forwarded clause); R-HIDREL.'
-                ' Round 8: close() sweeps the open objects on every returning path (R-CLOSE sweep clause).',
+                ' Round 8: close() sweeps the open objects on every returning path (R-CLOSE sweep clause).'
+                ' Round 9: no backend catch handler swallows an exception (R-NOSWALLOW).',
     },
     'C11': {
         'technique': 'static analysis: must-pass-through (post-dominance) and who-may-call rules on FileHDF5::flush/close and '
@@ -125,7 +127,8 @@ CHECKS = {
                 " Added: R-FAPL (libver bounds / close degree), R-HIDOWN, R-ERR-EXISTS (stale handles raise instead of answering 'absent')."
                 ' Round 6: flush() reports success only on paths that ran H5Fflush without error (path enumeration; ReadOnly shortcut accepted).'
                 ' Round 7: H5Object releases its id unconditionally (R-HIDREL).'
-                ' Round 8: R-CLOSE sweep clause; no wrapper of an id kind that close() does not sweep can be move-assigned without releasing (R-HIDREL).',
+                ' Round 8: R-CLOSE sweep clause; no wrapper of an id kind that close() does not sweep can be move-assigned without releasing (R-HIDREL).'
+                ' Round 9: no temporary wrapper adopts an id the object itself holds (R-HIDOWN adopt clause).',
     },
     'C12': {
         'technique': 'static analysis: entropy-source classification of the generator chain in util::createId (def-use over static '
@@ -151,7 +154,8 @@ CHECKS = {
                 'through the aliased array are not decided.'
                 ' Added: key/getter/codec rules for dimension descriptors, R-TICKS (alias ticks replace the array), R-MBT slice for the append/create entry points, R-COLIDX, R-MEMTYPE.'
                 ' Round 7: dimension setters/getters and backend stores are verbatim (R-SETVERB, R-GETVERB, R-STOREVERB).'
-                ' Round 9: backend functions identify a handle by id, not by name (R-BYHANDLE-BACK); R-REPLACE-EXTENT.',
+                ' Round 9: backend functions identify a handle by id, not by name (R-BYHANDLE-BACK); R-REPLACE-EXTENT.'
+                ' R-GETRAW.',
     },
     'C18': {
         'technique': 'static analysis: constant-table agreement (regex alternatives / factor map / SI exponents), alternation-order '
@@ -180,7 +184,8 @@ CHECKS = {
                 ' Added: R-VALID-COND (a throwing getter fails the condition), isScalable specification (R-UNIT-SCALE).'
                 ' Round 6: the unit tables behind isScalable are checked here too (R-UNIT-TAB).'
                 ' Round 7: validator and tick setters decide sortedness with one predicate (R-VALID-SORTED).'
-                ' Round 8: name-first lookups behind the multi-getters the file validation walks (R-NAMEFIRST, R-LOOKUP).',
+                ' Round 8: name-first lookups behind the multi-getters the file validation walks (R-NAMEFIRST, R-LOOKUP).'
+                ' Round 9: the getters the validator reads return what is stored (R-GETRAW).',
     },
     'C04': {
         'technique': 'static analysis: role table of removal sites filled from interface overriders, who-may-call and call-graph '
@@ -288,7 +293,8 @@ CHECKS = {
                 ' Added: R-VECFILL, R-RAWBUF, R-COLIDX, R-NULL-CSTR, R-STALE, R-ERR-EXISTS.'
                 ' Round 6: no library value type keeps a reference to a constructor argument outside the reviewed table (R-REFMEMBER).'
                 " Round 7: R-NAMEBUF; memory space is created from the caller's count on every path (R-ROLE)."
-                ' Round 8: no element access before the size test the function itself makes (R-BOUNDBELIEF); R-CALIB no-text clause (guards D29).',
+                ' Round 8: no element access before the size test the function itself makes (R-BOUNDBELIEF); R-CALIB no-text clause (guards D29).'
+                ' Round 9: fixed-rank Hydra containers check the rank of the whole requested shape (R-HYDRA-RANK).',
     },
 }
 
